@@ -60,6 +60,8 @@ func main() {
 		coldMain(w, *tier)
 	case "history":
 		historyMain(w, *tier)
+	case "persite":
+		persiteMain(w, *tier)
 	case "findings":
 		findingsMain(w, *tier)
 	default:
